@@ -159,10 +159,50 @@ Theorem C14_d9_foreign_release_refuted : exists evs,
 Proof. exact d9_foreign_release_refuted. Qed.
 Print Assumptions C14_d9_foreign_release_refuted.
 
-(* --- still refuted at full strength on the repaired code (known findings D5 / D7): a
-   doubly claimed member can stay unreported --- *)
+(* D8 (round 5): a sub-job without a topology of its own was skipped by the recovery although
+   its job is constrained, so the job's running pod was forgotten *)
+Theorem C14_d8_recovery_refuted :
+  let '(hn, real) := trace_session 2 [(1%positive, [1]); (1%positive, [1])] in
+  let pods := [(1, 2%positive, 2); (0, 1%positive, 1)] in
+  snd (recover_all_gen false hn real 1 pods) = Some None /\
+  snd (recover_all_gen true hn real 1 pods) = Some (Some 2%positive).
+Proof. exact d8_recovery_refuted. Qed.
+Print Assumptions C14_d8_recovery_refuted.
+
+(* D10 (round 5): the recorder replayed the sub-job decision of a candidate that an earlier
+   round had only tried: sub-job 1 ended above its tier-1 limit (h4) instead of h3 *)
+Theorem C14_d10_stale_decision_refuted :
+  let '(hn, _) := trace_session 2 [(1%positive, [1; 1; 1]); (1%positive, [2]); (1%positive, [1])] in
+  let rounds : list round :=
+    [ ([(2%positive, [(1, 2%positive)]); (3%positive, [(1, 3%positive)]); (1%positive, [(1, 1%positive)])], 3%positive);
+      ([(3%positive, [(2, 3%positive)]); (1%positive, [(2, 1%positive)]); (2%positive, [(2, 2%positive)])], 2%positive) ] in
+  zget 1 (run_rounds false hn rounds) = Some (Some 4%positive) /\
+  zget 1 (run_rounds true hn rounds) = Some (Some 3%positive) /\
+  zget 2 (run_rounds true hn rounds) = Some (Some 2%positive).
+Proof. exact d10_stale_decision_refuted. Qed.
+Print Assumptions C14_d10_stale_decision_refuted.
+
+(* D5 (round 5): on the state after "h1 claims h2; h2 created; h2 deleted", a second claimer
+   h3 of h2 was accepted by addChild; now it is refused *)
+Theorem C14_d5_second_claimer_refuted :
+  let s := snd (run (mkEnv [] []) [EUpd (mkObj 1 2 [MHyper 2]); EUpd (mkObj 2 1 []); EDel 2;
+                                   EUpd (mkObj 4 1 [])])%positive in
+  let s3 := set_hn s (aset 3%positive (mkInfo 2 [MHyper 2%positive] None [] false) (s_hn s)) in
+  snd (add_child_prefix s3 3 2) = false /\ add_child s3 3 2 = (s3, true).
+Proof. exact d5_second_claimer_refuted. Qed.
+Print Assumptions C14_d5_second_claimer_refuted.
+
+Theorem C14_d2a_label_leaf_stale_refuted :
+  let e := mkEnv [1%positive] [(1%positive, [1%positive])] in
+  let evs := [EUpd (mkObj 1 1 [MSel true 1]); ENodeDel 1]%positive in
+  real_get (snd (run_round4 e evs)) 1 = [1%positive] /\ real_get (snd (run e evs)) 1 = [].
+Proof. exact d2a_label_leaf_stale_refuted. Qed.
+Print Assumptions C14_d2a_label_leaf_stale_refuted.
+
+(* --- still refuted at full strength on the repaired code (known finding D7): a cycle between
+   two HyperNodes of the same tier stays unreported --- *)
 Theorem C14_bad_membership_not_ready_refuted : exists evs,
-  let objs := [mkObj 1 2 [MHyper 2]; mkObj 3 2 [MHyper 2]]%positive in
+  let objs := [mkObj 1 1 [MHyper 2]; mkObj 2 1 [MHyper 1]]%positive in
   bad_membership objs = true /\ s_ready (snd (run (mkEnv [] []) evs)) = true.
 Proof. exact bad_membership_not_ready_refuted. Qed.
 Print Assumptions C14_bad_membership_not_ready_refuted.
